@@ -8,7 +8,7 @@
 (*                         of a one-node meta service;                                                 *)
 (*   GenMode = "cluster" : three meta nodes, no ticks (the real lease duration is far longer than the  *)
 (*                         scenario), leadership moves by StepDown -> Elect -> Learn* (raft leadership *)
-(*                         transfer on the real cluster), followers restart, calls are made only when  *)
+(*                         transfer on the real cluster), followers stop/start, calls are made only when *)
 (*                         every node knows the leader - or, after a final StepDown without successor, *)
 (*                         to the node that knows there is none (503).                                 *)
 (* A record per step: the action with its arguments and, after it, the projected state st = [now, tbl, *)
